@@ -2,7 +2,7 @@
 import ast
 
 from .model import AnalysisError, NotConst, fold, node_src, is_self_attr, call_name
-from .paths import MaybeV, Const
+from .paths import MaybeV, Const, Domain, Interp, Env, Opaque, TOP, LambdaV
 from .report import walk_no_nested
 
 LEVEL = "other"
@@ -63,6 +63,45 @@ def _default(p, module):
         return ("const", repr(fold(p.default, module)))
     except NotConst:
         return ("expr", node_src(p.default))
+
+
+class _GetattrDomain(Domain):
+    """RetryingClient.__getattr__ and the callable it returns: what reaches self._retry."""
+
+    async_enabled = False
+    global_keys = ("#retry",)
+
+    def attr_load(self, objval, node, state):
+        if is_self_attr(node, "_client"):
+            return Opaque("client")
+        if is_self_attr(node, "_retry"):
+            return Opaque("self._retry")
+        if objval == Opaque("client"):
+            if node.attr == "__getattribute__":
+                return Opaque("client.__getattribute__")
+            return Opaque("client." + node.attr)
+        return TOP
+
+    def call(self, node, fval, args, kwargs, state):
+        name = call_name(node)
+        if (name == "getattr" and len(args) == 2 and args[0] == Opaque("client") and args[1] == Opaque("NAME")) or (fval == Opaque("client.__getattribute__") and list(args) == [Opaque("NAME")]):
+            return [("ok", Opaque("client.NAME"), state)]
+        if fval == Opaque("self._retry"):
+            def h(v):
+                try:
+                    hash(v)
+                    return v
+                except TypeError:
+                    return TOP
+            rec = (tuple(h(a) for a in args), tuple(sorted((("**" if k.startswith("**") else k), h(v)) for k, v in kwargs.items())))
+            return [("ok", Opaque("retry-result"), state.set("#retry", state.get("#retry", ()) + (rec,)))]
+        return [("ok", TOP, state)]
+
+
+def _show_retry(c):
+    def sh(v):
+        return getattr(v, "tag", None) or str(v)
+    return "_retry(%s)" % ", ".join([sh(a) for a in c[0]] + ["%s%s" % ("**" if k == "**" else k + "=", sh(v)) for k, v in c[1]])
 
 
 def run(chk):
@@ -287,22 +326,36 @@ def run(chk):
     r4 = chk.rule("C16.R4", "RetryingClient forwards name, bound method and all arguments; _retry returns the delegate's result unmodified; dunders mirror Client's")
     rc = prog.cls("RetryingClient")
     ga = prog.method(rc, "__getattr__")
-    lam = [n for n in ast.walk(ga.node) if isinstance(n, ast.Lambda)]
-    ok = False
-    why = "no lambda returned"
-    if len(lam) == 1:
-        l = lam[0]
-        b = l.body
-        why = "lambda body is `%s`" % node_src(b)
-        if isinstance(b, ast.Call) and call_name(b) == "self._retry" and l.args.vararg and l.args.kwarg and not l.args.args:
-            a = b.args
-            star = [x for x in a if isinstance(x, ast.Starred)]
-            dstar = [k for k in b.keywords if k.arg is None]
-            getter = a[1] if len(a) > 1 else None
-            nm = ga.pos_params()[0].name if ga.pos_params() else "name"
-            g_ok = isinstance(getter, ast.Call) and call_name(getter) in ("self._client.__getattribute__", "getattr") and any(isinstance(x, ast.Name) and x.id == nm for x in getter.args)
-            ok = len(a) >= 3 and isinstance(a[0], ast.Name) and a[0].id == nm and g_ok and len(star) == 1 and star[0].value.id == l.args.vararg.arg and len(dstar) == 1 and dstar[0].value.id == l.args.kwarg.arg
-    r4.expect(ok, "__getattr__ -> lambda *a, **k: self._retry(name, self._client.<name>, *a, **k)", "RetryingClient.__getattr__:forwarding", "RetryingClient.__getattr__ does not forward name/method/arguments intact: %s" % why, fn=ga, node=ga.node)
+    # __getattr__ interpreted with a symbolic name; the callable it returns (a lambda or a nested single-return def)
+    # applied to symbolic *A, **K: the one call it makes must be self._retry(name, <the client's attribute `name`>, *A, **K)
+    # and its result is what the callable returns
+    nm = ga.pos_params()[0].name if ga.pos_params() else "name"
+    gdom = _GetattrDomain(prog, ga)
+    gouts = Interp(gdom, ga.node, prog).run(Env({nm: Opaque("NAME")}))
+    n_ret = 0
+    for s_, v, t in gouts.of("ret"):
+        n_ret += 1
+        if not isinstance(v, LambdaV):
+            r4.undecided("RetryingClient.__getattr__:forwarding", "__getattr__ returns %s: not a lambda or a single-return function this analysis can apply" % (v,))
+            continue
+        res = gdom.apply_lambda(v.node, v, [], {"#star": Opaque("*A"), "#dstar": Opaque("**K")}, s_)
+        if res is None:
+            r4.undecided("RetryingClient.__getattr__:forwarding", "the callable returned by __getattr__ does not take (*args, **kwargs) only")
+            continue
+        for kind, val, s2 in res:
+            calls_ = s2.get("#retry", ())
+            want = ((Opaque("NAME"), Opaque("client.NAME"), Opaque("*A")), (("**", Opaque("**K")),))
+            if kind != "ok":
+                r4.fail("RetryingClient.__getattr__:forwarding", "the callable returned by __getattr__ raises %s before anything is forwarded" % (val,), fn=ga, node=ga.node)
+            elif len(calls_) != 1 or calls_[0] != want:
+                r4.fail("RetryingClient.__getattr__:forwarding", "RetryingClient.__getattr__ does not forward name/method/arguments intact: client.<name>(*a, **k) through the wrapper makes the _retry calls %s (wanted: _retry(name, client.<name>, *a, **k))" % ([_show_retry(c) for c in calls_],), fn=ga, node=ga.node)
+            elif val != Opaque("retry-result"):
+                r4.fail("RetryingClient.__getattr__:result-modified", "the callable returned by __getattr__ returns %s, not the value _retry returned" % (val,), fn=ga, node=ga.node)
+            else:
+                r4.ok("__getattr__(name)(*a, **k) = self._retry(name, client.<name>, *a, **k)")
+    for s_, e_, t in gouts.of("exc"):
+        r4.fail("RetryingClient.__getattr__:raises", "__getattr__ raises %s" % (e_,), fn=ga, node=ga.node)
+    r4.floor("returns of RetryingClient.__getattr__", n_ret, 1)
     rt = prog.method(rc, "_retry")
     calls = [c for c in walk_no_nested(rt.node) if isinstance(c, ast.Call) and isinstance(c.func, ast.Name) and c.func.id == "func"]
     va = [p_.name for p_ in rt.params if p_.kind == "vararg"]
